@@ -6,6 +6,17 @@ VERIF = Path(__file__).resolve().parent.parent
 ALL = [f"C{i:02d}" for i in range(1, 20)]
 
 CLAIMED = {
+    "C03": dict(
+        text="lib/PySeq.tla states Python index/slice semantics from the language reference and is itself model-checked against an "
+             "independent set-based reading (MC_PySeq, every (n, index) for n <= 4). Index/slice/concat expressions - exhaustive "
+             "single-level over widths, bounds in [-2W,2W], all steps, on signals, slices, concats, port and bundle references; "
+             "exhaustive concats and depth-2 nesting for small widths; seeded random depth 2-3 - are built with the real library, "
+             "connected and exported; TLC (Trace_Slice) classifies each (must accept / must reject / either) and compares the "
+             "reported width and the bit sequence named in the exported package with SliceSem!Bits.",
+        note="Trusted: harness/props/c03.py (driver, reader of the exported connection: slices bot..top inclusive, concat parts "
+             "most-significant first as the vlsirtools netlisters read them), TLC. Non-unit-step and out-of-range-bound slices may be "
+             "rejected or must be Python-correct. Bounds: quick W=4 (signals) / 2-3 (other kinds); thorough W=6 / 4.",
+        ref="6 C03", technique="TLA+ functional spec (PySeq/SliceSem) + TLC batch validation of recorded cases"),
     "C18": dict(
         text="TLC enumerates every edit history of the Namespace model up to the stated depth (history kept in the state: exhaustive "
              "over the bounded alphabet; simulate above it); each history is replayed on a real Module/Bundle and the recorded "
